@@ -7,6 +7,7 @@
 namespace qsim {
 
 const char *sym_mangled(uintptr_t pc);
+uintptr_t   sym_start(uintptr_t pc); // start address of the enclosing function (binary is not PIE: stable)
 bool        mangled_is_lib(const char *m);
 bool        pc_is_lib(uintptr_t pc);
 std::string short_name(const char *mangled);
